@@ -26,6 +26,7 @@ def dispatch (line : String) : String :=
     else if cmd = "h1read" then Drv.h1read args
     else if cmd = "h1upgrade" then Drv.h1upgrade args
     else if cmd = "h1leading" then Drv.h1leading args
+    else if cmd = "h1handover" then Drv.h1handover args
     else if cmd = "h1write" then Drv.h1write args
     else if cmd = "h1head" then Drv.h1head args
     else if cmd = "h1parse" then Drv.h1parse args
